@@ -1014,7 +1014,7 @@ def run_wire(spec, ctx):
         case = make_case("site" if site else "wire", recipe, muts, targets, data)
         check_bytes(ctx, data, targets, case)
         ctx.label("len<=64" if len(data) <= 64 else "len<=4096" if len(data) <= 4096 else "len>4096")
-        if len(data) <= 256:
+        if 8 <= len(data) <= 256 and ctx.evaluations % 97 == 0:
             ctx.sample(case)
 
     test()
